@@ -26,7 +26,7 @@ CASE_TIMEOUT = 12      # seconds; a normal case takes well under one second
 MEM_LIMIT_GB = 6
 ASSUMPTIONS = ['a usage error is SystemExit (2) raised by argparse', 'report completeness: known block structure, no unparsed lines, no nan/inf text']
 
-HOSTILE = ['1' + '0' * 400, '0', '-1', '1', '1e300', '-1e300', '1e-300', '1e155', '1e-155', '3e153', 'nan', 'inf', '-inf', '', 'abc', '1e9', '-0.0', '0.5', '2', '1e-9', '99999999999', '-7']
+HOSTILE = ['1.7e308+1.7e308j', '1' + '0' * 400, '0', '-1', '1', '1e300', '-1e300', '1e-300', '1e155', '1e-155', '3e153', 'nan', 'inf', '-inf', '', 'abc', '1e9', '-0.0', '0.5', '2', '1e-9', '99999999999', '-7']
 TAGS    = ['0', '-1', '99', '1', '2', '3', 'x', '']
 
 # ---- enumerated stratum: every field of every option form x every hostile value, one at a time,
@@ -312,6 +312,10 @@ def dead_source_cases ():
     return out
 # end def dead_source_cases
 
+# complex numbers whose parts are finite but whose magnitude is not
+EDGE = EDGE + [ E1 + [['--excitation-voltage', v]] + x + o for v in ('1.7e308+1.7e308j', '-1.5e308-1.5e308j', '1e308+1.6e308j')
+                for x in ([], [['--load', '1.7e308+1.7e308j'], ['--attach-load', '1,2']], [['--load', '1.7e308+1.7e308j'], ['--attach-load', '1,all']])
+                for o in ([], [['--option', 'none']]) ]
 EDGE = EDGE + pole_cases () + dead_source_cases ()
 
 def plan (tier, seed):
